@@ -1,4 +1,71 @@
-import ShmVerif.Model.Proto
+import ShmVerif.Proof.Mux
+/-!
+  C07 — multiplexed streams stay isolated and ordered.
+
+  Model `Mux`: the message-level abstraction of the two-session protocol model `Proto` (the driver runs both side by side
+  against the real sessions and reports any disagreement).  `run {qcap} ops` ranges over EVERY sequence of opens, flushes
+  (shared-memory or fall-back transport, queue full), closes from either end, deliveries of control-connection events to
+  either end, reader moves/releases, for ANY number of streams and ANY queue capacity.
+
+  For sender `x`, stream `j`: `tagOf x j sent` = the messages `x` flushed successfully on `j`, in flush order;
+  `tagOf x.peer j arrived` = the messages that reached the peer's stream `j`, in arrival order.
+  The guard `(x, j) ∉ recreated` excludes stream ids for which the SERVER re-created a stream object after closing one
+  with the same id (two different streams then share an id).
+
+  Operations are atomic here.  The sub-operation race "the wake-up is published (flag CAS) before the polling event is
+  written" (DESIGN §6 F5a) is outside this model.
+-/
 namespace Props.C07
-theorem placeholder : True := trivial
+open Mux List
+
+/-- Per-stream order across the two channels: what has arrived, followed by what is still in the shared queue, followed by
+    what is still on the control connection, is exactly what was flushed, in flush order. -/
+theorem c07_order (qcap : Nat) (ops : List Op) (x : Side) (j : Nat) :
+    let s := run { qcap := qcap } ops
+    (x, j) ∉ s.recreated →
+    tagOf x.peer j s.arrived ++ qdata j (s.ch x).q ++ kdata j (s.ch x).k = tagOf x j s.sent :=
+  (run_inv _ ops x j (inv_init qcap x j)).ord
+
+/-- Hence the arrivals on a stream are a PREFIX of the flushes on that stream: in order, nothing skipped, nothing repeated,
+    nothing from another stream or direction. -/
+theorem c07_arrivals_prefix (qcap : Nat) (ops : List Op) (x : Side) (j : Nat) :
+    let s := run { qcap := qcap } ops
+    (x, j) ∉ s.recreated → tagOf x.peer j s.arrived <+: tagOf x j s.sent := by
+  intro s hr
+  have := c07_order qcap ops x j hr
+  exact ⟨qdata j (s.ch x).q ++ kdata j (s.ch x).k, by rw [← this, append_assoc]⟩
+
+/-- Isolation: a message that arrived on stream `j` of end `y` was flushed by the peer on stream `j`. -/
+theorem c07_isolation (qcap : Nat) (ops : List Op) (y : Side) (j m : Nat) :
+    let s := run { qcap := qcap } ops
+    (y.peer, j) ∉ s.recreated → m ∈ tagOf y j s.arrived → m ∈ tagOf y.peer j s.sent := by
+  intro s hr hm
+  have := c07_arrivals_prefix qcap ops y.peer j hr
+  rw [peer_peer] at this
+  exact this.subset hm
+
+/-- Once nothing of the stream is in flight any more, everything that was flushed on it has arrived. -/
+theorem c07_complete_when_drained (qcap : Nat) (ops : List Op) (x : Side) (j : Nat) :
+    let s := run { qcap := qcap } ops
+    (x, j) ∉ s.recreated → qdata j (s.ch x).q = [] → kdata j (s.ch x).k = [] →
+    tagOf x.peer j s.arrived = tagOf x j s.sent := by
+  intro s hr h1 h2
+  have := c07_order qcap ops x j hr
+  rw [h1, h2, append_nil, append_nil] at this
+  exact this
+
+/-- The wake-up discipline at operation level: a non-empty shared queue always has its polling event on the connection. -/
+theorem c07_queue_has_polling (qcap : Nat) (ops : List Op) (x : Side) :
+    let s := run { qcap := qcap } ops
+    (s.ch x).q ≠ [] → Ev.polling ∈ (s.ch x).k := by
+  intro s hq
+  have h := (run_inv _ ops x 0 (inv_init qcap x 0)).core
+  exact h.g1 (h.g2 hq)
+
+-- non-vacuity: one stream, a shared-memory message, then fall-back messages, delivered in steps
+example :
+    let s := run { qcap := 4 } [.open_ .a, .flush .a 2 false, .flush .a 2 true, .flush .a 2 false, .deliver .b, .deliver .b]
+    tagOf .a 2 s.sent = [0, 1, 2] ∧ tagOf .b 2 s.arrived = [0, 1] ∧ kdata 2 (s.ch .a).k = [2] ∧ s.recreated = [] := by
+  decide
+
 end Props.C07
